@@ -26,7 +26,8 @@ Also a history runner for C09 (same protocol as runners/history.py, which it del
   python interactive_route.py <sandbox>                  one JSON step per line on stdin, one JSON line {"result": ..} each
   python interactive_route.py <sandbox> --once <step>    a single step
 extra steps: {"op": "icreate", ...} (interactive create through the in-process driver), {"op": "cfgcreate", ...} (CLI
-`create --config --config-path <ini>`), {"op": "iedit"}, {"op": "irecheck"}.
+`create --config --config-path <ini>`), {"op": "iedit"}, {"op": "irecheck"}; execute_extended: "verbose" (-v), "hook", "target",
+{"op": "mkbatch"}, {"op": "rebuild-batch"}.
 """
 import io
 import os
@@ -151,6 +152,9 @@ def execute(sb, step):
     """one step of a C09 history against the sandbox sb (payload in sb/payload, metafiles m<k>.torrent in sb)"""
     from runners import history as H
     op = step["op"]
+    if op in ("mkbatch", "rebuild-batch") or (op in ("create", "recheck", "edit", "info", "magnet", "rebuild")
+                                              and any(step.get(k) for k in ("verbose", "hook", "target"))):
+        return execute_extended(sb, step)
     if op not in ("icreate", "cfgcreate", "iedit", "irecheck"):
         return H.execute(sb, step)
     payload = os.path.join(sb, "payload")
@@ -186,7 +190,7 @@ def execute(sb, step):
             import contextlib
             from torrentfile.cli import execute as cli
             out = os.path.join(sb, step.get("out", "mc.torrent"))
-            argv = [step.get("spelling", "create"), "--prog", "0", "--config", "--config-path", os.path.join(sb, step["ini"]),
+            argv = (["-v"] if step.get("verbose") else []) + [step.get("spelling", "create"), "--prog", "0", "--config", "--config-path", os.path.join(sb, step["ini"]),
                     "-o", out] + list(step.get("flags", ())) + [payload]
             sink = io.StringIO()
             old = os.getcwd()
@@ -197,6 +201,113 @@ def execute(sb, step):
             finally:
                 os.chdir(old)
             return {"meta": H.canon_meta(out)}
+    except BaseException as e:  # noqa
+        return {"exception": type(e).__name__}
+    return {"error": "unknown op"}
+
+
+def execute_extended(sb, step):
+    """steps the plain runner has no spelling for:
+      "verbose": true        the CLI form of create / recheck / edit / info / magnet / rebuild with the global flag -v in front (the
+                             flag raises the root logger to DEBUG for the rest of the process; nothing resets it)
+      "target": <dir>        the payload is sb/<dir> instead of sb/payload, the metafile m<version>-<dir>.torrent
+      "hook": true           recheck with a hook registered through Checker.register_callback: the messages the hook received are
+                             part of the result
+      {"op": "mkbatch"}      two metafiles for the SAME single file sb/payload/<file> that differ in their tracker only, written to
+                             sb/batch<version>/  (cross seeding)
+      {"op": "rebuild-batch"} rebuild of that folder of metafiles (CLI `rebuild -m .. -c .. -d ..` or rebuild.Assembler) into
+                             sb/destb<version>: the RETURNED counter and the destination tree are the result"""
+    import hashlib
+    import contextlib
+    from runners import history as H
+    from torrentfile import torrent
+    from torrentfile.cli import execute as cli
+    op = step["op"]
+    v = str(step.get("version", 1))
+    target = step.get("target")
+    payload = os.path.join(sb, target or "payload")
+    mf = os.path.join(sb, f"m{v}-{target}.torrent" if target else f"m{v}.torrent")
+    pre = ["-v"] if step.get("verbose") else []
+    via_cli = step.get("via") == "cli" or bool(pre)
+    sink = io.StringIO()
+    try:
+        with contextlib.redirect_stdout(sink), contextlib.redirect_stderr(sink):
+            if op == "create":
+                if via_cli:
+                    cli(pre + ["create", "--meta-version", v, "--piece-length", str(step.get("pl", 16384)), "-o", mf, "--prog", "0",
+                               "-a", "http://t/a", payload])
+                else:
+                    cls = {"1": torrent.TorrentFile, "2": torrent.TorrentFileV2, "3": torrent.TorrentFileHybrid}[v]
+                    if step.get("via") == "asm" and v != "1":
+                        cls = torrent.TorrentAssembler
+                    cls(path=payload, outfile=mf, piece_length=step.get("pl", 16384), progress=0, meta_version=v,
+                        announce=["http://t/a"]).write()
+                return {"meta": H.canon_meta(mf)}
+            if op == "recheck":
+                from torrentfile.recheck import Checker
+                messages = []
+                had = "_hook" in vars(Checker)
+                old = vars(Checker).get("_hook")
+                if step.get("hook"):
+                    Checker.register_callback(messages.append)
+                try:
+                    if via_cli:
+                        r = cli(pre + ["recheck", mf, payload])
+                    else:
+                        r = Checker(mf, payload).results()
+                except BaseException as e:  # noqa  what the hook received before the exception is part of the result
+                    if not step.get("hook"):
+                        raise
+                    return {"exception": type(e).__name__, "hook_messages": len(messages),
+                            "hook_digest": hashlib.sha256(json.dumps(messages).encode()).hexdigest()}
+                finally:
+                    if step.get("hook"):       # the 3rd party program takes its hook back
+                        if had:
+                            Checker._hook = old
+                        else:
+                            try:
+                                del Checker._hook
+                            except AttributeError:
+                                pass
+                res = {"percent": repr(r)}
+                if step.get("hook"):
+                    res.update(hook_messages=len(messages), hook_first=messages[:2],
+                               hook_digest=hashlib.sha256(json.dumps(messages).encode()).hexdigest())
+                return res
+            if op == "edit":
+                cli(pre + ["edit", mf, "--comment", step.get("comment", "c")])
+                return {"meta": H.canon_meta(mf)}
+            if op == "info":
+                return {"info": hashlib.sha256(str(cli(pre + ["info", mf])).encode()).hexdigest()}
+            if op == "magnet":
+                return {"uri": cli(pre + ["magnet", mf])}
+            if op == "rebuild":
+                dest = os.path.join(sb, "dest")
+                os.makedirs(dest, exist_ok=True)
+                n = cli(pre + ["rebuild", "-m", mf, "-c", payload, "-d", dest])
+                return {"count": n, "dest": H.tree_digest(dest)}
+            if op == "mkbatch":
+                bdir = os.path.join(sb, f"batch{v}")
+                os.makedirs(bdir, exist_ok=True)
+                single = os.path.join(payload, step.get("file", "a"))
+                out = {}
+                for tracker in ("one", "two"):
+                    o = os.path.join(bdir, f"{os.path.basename(single)}.{tracker}.torrent")
+                    cls = torrent.TorrentFile if v == "1" else torrent.TorrentAssembler
+                    cls(path=single, outfile=o, piece_length=step.get("pl", 16384), progress=0, meta_version=v,
+                        announce=[f"http://tracker-{tracker}.example/announce"]).write()
+                    out[tracker] = H.canon_meta(o)
+                return {"metas": out}
+            if op == "rebuild-batch":
+                bdir = os.path.join(sb, f"batch{v}")
+                dest = os.path.join(sb, f"destb{v}")
+                os.makedirs(dest, exist_ok=True)
+                if via_cli:
+                    n = cli(pre + ["rebuild", "-m", bdir, "-c", payload, "-d", dest])
+                else:
+                    from torrentfile.rebuild import Assembler
+                    n = Assembler([bdir], [payload], dest).assemble_torrents()
+                return {"count": n, "dest": H.tree_digest(dest)}
     except BaseException as e:  # noqa
         return {"exception": type(e).__name__}
     return {"error": "unknown op"}
